@@ -58,6 +58,10 @@ CTOR1 = ["TRIAD/rotmat/NED", "TRIAD/quaternion/ENU", "Davenport", "QUEST", "FLAE
          "Tilt/angles"]
 for _n in CTOR1:
     TABLE[_n + "[constructor, one sample]"] = TABLE[_n]
+for _wl in ("sum>1", "sum>1,unequal", "sum<1", "normalised"):
+    TABLE["QUEST[weights %s]" % _wl] = ("general", "inv")
+    TABLE["Davenport[weights %s]" % _wl] = ("free", "inv")
+    TABLE["FLAE/eig[weights %s]" % _wl] = ("free", "inv")
 TILT_ONLY = {"Tilt/acc-only", "AQUA.estimate/acc", "acc2q", "Tilt/angles[acc2q, return_euler]"}
 ROUTES = list(TABLE)
 REGIONS = {"general": 150, "generic": 60, "special:level": 13, "special:inverted": 7, "special:vertical": 12, "special:half-turn": 8, "special:identity": 1,
@@ -93,8 +97,11 @@ def draw_dip(rng, i):
 def generate(rng, tier, shard, nshards):
     n = gens.budget(600, tier, nshards)
     for i in range(n):
-        yield Case("all", "general", q=gens.general_position(rng), dip=draw_dip(rng, i), sa=gens.logu(rng, 1e-2, 1e2),
-                   sm=gens.logu(rng, 1e-2, 1e3), seed=int(rng.integers(2**31)))
+        # every 7th case: both sensors in units far from the usual ones (a common factor of 1e-12 .. 1e12: tesla, raw counts); their RATIO stays moderate -
+        # estimators that weigh the raw vectors (Davenport, QUEST) cannot resolve one observation that is 1e-16 of the other
+        ext = gens.logu(rng, 1e-12, 1e12) if i % 7 == 3 else 1.0
+        yield Case("all", "general", q=gens.general_position(rng), dip=draw_dip(rng, i), sa=ext * gens.logu(rng, 1e-2, 1e2),
+                   sm=ext * gens.logu(rng, 1e-2, 1e3), seed=int(rng.integers(2**31)))
     for i in range(gens.budget(240, tier, nshards)):
         yield Case("free", "generic", q=gens.unit(rng), dip=draw_dip(rng, i), sa=gens.logu(rng, 1e-2, 1e2),
                    sm=gens.logu(rng, 1e-2, 1e3), seed=int(rng.integers(2**31)))
@@ -215,6 +222,10 @@ def specs(dip_deg, seed, q_true=None, sgn=1.0):
     out["am2q/ENU"] = (G, mE(d), lambda a, m: o.am2q(a, m, frame="ENU"))
     out["am2q/NED"] = (-G, mN(d), lambda a, m: o.am2q(a, m, frame="NED"))
     out["am2angles"] = (G, mN(d), lambda a, m: o.am2angles(a, m))
+    for wl, wv in (("sum>1", np.array([1.0, 1.0])), ("sum>1,unequal", np.array([2.0, 0.7])), ("sum<1", np.array([0.3, 0.2])), ("normalised", np.array([0.8, 0.2]))):
+        out["QUEST[weights %s]" % wl] = (np.array(qu.g_q, float), np.array(qu.m_q, float), lambda a, m, wv=wv: F.QUEST(magnetic_dip=dip_deg, weights=wv.copy()).estimate(a, m))
+        out["Davenport[weights %s]" % wl] = (np.array(dv.g_q, float), np.array(dv.m_q, float), lambda a, m, wv=wv: F.Davenport(magnetic_dip=dip_deg, weights=wv.copy()).estimate(a, m))
+        out["FLAE/eig[weights %s]" % wl] = (np.array(fl.ref[0], float), np.array(fl.ref[1], float), lambda a, m, wv=wv: F.FLAE(magnetic_dip=dip_deg, weights=wv.copy()).estimate(a, m, method="eig"))
     out["acc2q"] = (G, mN(d), lambda a, m: o.acc2q(a))
     out["Tilt/angles[acc2q, return_euler]"] = (G, mN(d), lambda a, m: np.radians(o.acc2q(a, return_euler=True)))      # roll, pitch, yaw in degrees
     out["Davenport[gravity=]"] = (np.array(dv.g_q, float), np.array(dv.m_q, float), lambda a, m: F.Davenport(magnetic_dip=dip_deg, gravity=3.71).estimate(a, m))
